@@ -72,7 +72,7 @@ ProgOK ==
     /\ \A k \in DOMAIN A :
         LET c == A[k][1]  d == A[k][2] IN
         /\ c \in PIds /\ d \in PIds /\ c # d /\ HasGroup(P, c)
-        /\ IsPoint(P, c) => (IsDS(P, d) /\ ~ImplOfSome(P, A, k - 1, d))
+        /\ IsPoint(P, c) => (IsDS(P, d) /\ ~ImplOfSome(P, A, k - 1, d) /\ ~ReachesCycle(DAt(k), d))
 RawOK == \A i \in DOMAIN H.g : H.g[i].k \in 1..64 /\ \A j \in DOMAIN H.g[i].vs : H.g[i].vs[j] \in 1..64
 Admitted == IF IsRaw THEN RawOK /\ NoDup(KeysOf(H.g)) ELSE H.ev = "prog" /\ ProgOK
 
